@@ -208,8 +208,12 @@ DynHamtOp(n, t) ==
 AddCore(n, t) == CASE cfg.kind = "basic" -> BasicAdd(n, t)
                    [] cfg.kind = "hamt"  -> HamtAdd(n, t)
                    [] OTHER -> IF mode = "basic" THEN DynBasicAdd(n, t) ELSE DynHamtOp(n, t)
+\* DevReload also hits a removal of an ABSENT name: the conversion is attempted before the lookup
+ReloadMiss(n) == /\ DevReload \in Devs /\ cfg.kind = "dynamic" /\ mode = "hamt" /\ set.maxLinks > 0
+                 /\ bk.tl < Count(entries) /\ bk.tl <= set.maxLinks /\ Count(entries) > set.maxLinks + 1
+                 /\ Same("maxLinks", {DevReload})
 RemoveCore(n) ==
-  IF ~Present(n) THEN Same("notExist", {})
+  IF ~Present(n) THEN Same("notExist", {}) \/ (ReloadMiss(n) /\ (set.est = "disabled" \/ EstSizeBy(set.est, entries) <= EffThr))
   ELSE CASE mode = "basic" -> Out(With(n, NoT), "basic", set, EmptyTrie, "", {})
          [] cfg.kind = "hamt" -> Out(With(n, NoT), "hamt", set, TrieRemove(trie, n), "", {})
          [] OTHER -> DynHamtOp(n, NoT)
@@ -225,13 +229,14 @@ MapAdd(n, t, m2) ==
                                       [] OTHER -> CanonTrie(Keys(With(n, t))), "", {})
         \/ /\ DevReload \in Devs /\ cfg.kind = "dynamic" /\ mode = "hamt" /\ set.maxLinks > 0
            /\ bk.tl < Count(entries) /\ Count(With(n, t)) > set.maxLinks
+           /\ bk.tl + 1 - (IF Present(n) THEN 1 ELSE 0) <= set.maxLinks
            /\ Same("maxLinks", {DevReload})
 MapRemove(n, m2) ==
-  IF ~Present(n) THEN Same("notExist", {})
+  IF ~Present(n) THEN Same("notExist", {}) \/ ReloadMiss(n)
   ELSE \/ /\ m2 \in (IF cfg.kind = "dynamic" /\ mode = "hamt" THEN {"basic", "hamt"} ELSE {mode})
           /\ Out(With(n, NoT), m2, set, IF m2 = "hamt" THEN TrieRemove(trie, n) ELSE EmptyTrie, "", {})
        \/ /\ DevReload \in Devs /\ cfg.kind = "dynamic" /\ mode = "hamt" /\ set.maxLinks > 0
-          /\ bk.tl < Count(entries) /\ Count(entries) > set.maxLinks + 1
+          /\ bk.tl < Count(entries) /\ Count(entries) > set.maxLinks + 1 /\ bk.tl - 1 <= set.maxLinks
           /\ Same("maxLinks", {DevReload})
 
 (* ------------------------------------------------------------------ bookkeeping rule - *)
